@@ -11,6 +11,7 @@
 #include <crab/config.h>
 
 #include <crab/domains/abstract_domain_operators.hpp>
+#include <crab/domains/interval.hpp>
 #include <crab/support/debug.hpp>
 #include <crab/support/stats.hpp>
 
@@ -42,7 +43,8 @@ public:
    *    x = y + k <--> y = x - k
    *    x = y - k <--> y = x + k
    *    x = y * k <--> y = x / k  if (k != 0)
-   *    x = y / k <--> y = x * k  if (k != 0)
+   *    x = y / k <--> y = x * k  if (k = 1 or k = -1), otherwise y is
+   *                               in x*k + [-(|k|-1), |k|-1]
    *
    *  Fallback case:
    *   forget(x)
@@ -112,10 +114,31 @@ public:
       }
       break;
     case OP_SDIV:
-      if (k != 0) {
+      if (k == 1 || k == -1) {
         dom.apply(OP_MULTIPLICATION, y, x, k);
         if (!(x == y)) {
           dom -= x;
+        }
+      } else if (k != 0) {
+        // The division truncates so it is not invertible: x = y / k
+        // holds for every y in x*k + [-(|k|-1), |k|-1].
+        dom.apply(OP_MULTIPLICATION, y, x, k);
+        number_t slack = (k < 0 ? -k : k) - 1;
+        ikos::interval<number_t> y_intv =
+            dom[y] + ikos::interval<number_t>(-slack, slack);
+        if (!(x == y)) {
+          dom -= x;
+        }
+        dom -= y;
+        if (y_intv.lb().is_finite()) {
+          dom += linear_constraint_t(
+              linear_expression_t(*(y_intv.lb().number())) - y,
+              linear_constraint_t::INEQUALITY);
+        }
+        if (y_intv.ub().is_finite()) {
+          dom += linear_constraint_t(
+              linear_expression_t(y) - *(y_intv.ub().number()),
+              linear_constraint_t::INEQUALITY);
         }
       } else {
         dom -= x;
